@@ -3,6 +3,7 @@ package main
 import (
 	"bytes"
 	"fmt"
+	"io"
 	"os"
 	"strings"
 	"sync"
@@ -11,6 +12,7 @@ import (
 	"github.com/bbva/qed/balloon"
 	"github.com/bbva/qed/consensus"
 	"github.com/bbva/qed/crypto/hashing"
+	"github.com/bbva/qed/storage"
 	"github.com/hashicorp/raft"
 	"qedverif/cq"
 )
@@ -25,7 +27,33 @@ type cluster struct {
 	trail   uint64
 	acked   []*balloon.Snapshot // by version, as returned by the leader
 	events  [][]byte
-	indet   bool // a proposal ended with an error that does not tell whether it was committed
+	indet   bool                                                    // a proposal ended with an error that does not tell whether it was committed
+	wrap    map[int]func(storage.ManagedStore) storage.ManagedStore // optional store wrapper per node (fault injection)
+}
+
+// failLoadStore: the first LoadSnapshot fails after consuming part of the stream (a connection that drops
+// mid-transfer); nothing of it is applied.
+type failLoadStore struct {
+	storage.ManagedStore
+	mu     sync.Mutex
+	failed int
+	loads  int
+}
+
+func (f *failLoadStore) LoadSnapshot(r io.ReadCloser) error {
+	f.mu.Lock()
+	f.loads++
+	first := f.failed == 0
+	if first {
+		f.failed++
+	}
+	f.mu.Unlock()
+	if first {
+		buf := make([]byte, 64)
+		r.Read(buf)
+		return fmt.Errorf("injected: transfer stream broken")
+	}
+	return f.ManagedStore.LoadSnapshot(r)
 }
 
 func (c *cluster) start(i int, bootstrap bool) error {
@@ -37,7 +65,11 @@ func (c *cluster) start(i int, bootstrap bool) error {
 			}
 		}
 	}
-	n, _, err := startNode(nodeOpts{id: i, name: "n", dir: fmt.Sprintf("%s/node%d", c.dir, i), raftPort: c.ports[i], bootstrap: bootstrap, seeds: seeds, snapThr: c.snapThr, trailing: c.trail})
+	o := nodeOpts{id: i, name: "n", dir: fmt.Sprintf("%s/node%d", c.dir, i), raftPort: c.ports[i], bootstrap: bootstrap, seeds: seeds, snapThr: c.snapThr, trailing: c.trail}
+	if w := c.wrap[i]; w != nil {
+		o.store = w(openRocks(o.dir + "/db"))
+	}
+	n, _, err := startNode(o)
 	if err != nil {
 		return err
 	}
